@@ -146,6 +146,9 @@ type Net struct {
 	// before Write returns. Inside a bubble both are virtual. They widen windows between a sender's checks and its
 	// write without creating schedules the transport could not produce (a write may take arbitrarily long).
 	WriteDelay func(class string) (pre, post time.Duration)
+	// TransientWriteError, when set, is asked for every client write: returning true makes that single Write fail with an
+	// error while the link stays healthy (a multi-path or reconnecting transport switching links reports such errors).
+	TransientWriteError func(class string, ordinalOfClass int) bool
 	// CloseFails makes Close return an error after it has closed the transport: "broken" = on a broken link only,
 	// "always" = every time (a silent peer never completes a closing handshake).
 	CloseFails string
@@ -518,6 +521,9 @@ func (c *Conn) write(b []byte, unrel bool) error {
 		return finish(false, false, errDown("write"))
 	case REOF, Blackhole:
 		return finish(true, false, nil)
+	}
+	if f := l.net.TransientWriteError; f != nil && f(cl, ord) {
+		return finish(false, false, fmt.Errorf("memnet: transient write error (the link stays up)"))
 	}
 	if t := l.matchTrigger(C2S, cl, ord, ordAny); t != nil {
 		if !t.After {
